@@ -72,6 +72,8 @@ def owners(clause):
         return ["C18"]
     if a == "reader":
         return ["C08"]
+    if a == "err_expected" and str(b).startswith("closed_loop"):
+        return ["C19"]
     if a in ("exc", "err_expected"):
         return ["C05"]
     return ["C05"]
